@@ -543,7 +543,30 @@ class Contracts:
         return seq_view(m, v)[2]
 
     def float_cast(self, m, v, sty, dty, kind):
-        raise EncoderGap('float cast %s' % kind)
+        """`as` between integers and IEEE floats, exactly as Rust defines it (round to nearest even; float -> int truncates and saturates, NaN -> 0)"""
+        from .machine import int_info
+        fsort = lambda t: z3.Float32() if t == 'f32' else z3.Float64()
+        if kind == 'IntToFloat':
+            bits, signed = int_info(sty)
+            bv = v if is_sym(v) else z3.BitVecVal(v, bits)
+            return z3.fpSignedToFP(z3.RNE(), bv, fsort(dty)) if signed else z3.fpUnsignedToFP(z3.RNE(), bv, fsort(dty))
+        if kind == 'FloatToFloat':
+            return z3.fpFPToFP(z3.RNE(), v, fsort(dty))
+        bits, signed = int_info(dty)
+        so = v.sort()
+        if signed:
+            lo, hi = -(1 << (bits - 1)), (1 << (bits - 1)) - 1
+            conv = z3.fpToSBV(z3.RTZ(), v, z3.BitVecSort(bits))
+        else:
+            lo, hi = 0, (1 << bits) - 1
+            conv = z3.fpToUBV(z3.RTZ(), v, z3.BitVecSort(bits))
+        # 2^bits (or 2^(bits-1)) is exactly representable: everything at or above it saturates
+        top = z3.FPVal(float(1 << (bits - 1 if signed else bits)), so)
+        bot = z3.FPVal(float(lo), so)
+        res = z3.If(z3.fpIsNaN(v), z3.BitVecVal(0, bits),
+                    z3.If(z3.fpGEQ(v, top), z3.BitVecVal(hi & ((1 << bits) - 1), bits),
+                          z3.If(z3.fpLEQ(v, bot) if signed else z3.fpLT(v, z3.FPVal(1.0, so)) if False else z3.fpIsNegative(v), z3.BitVecVal(lo & ((1 << bits) - 1), bits), conv)))
+        return simp(res)
 
 
 STD = Contracts()
